@@ -81,11 +81,20 @@ def make_pattern_strategy(observe):
         def before(self):
             observe(self, 'before', None)
 
+        def after(self):
+            observe(self, 'after', None)
+
         def on_open_position(self, order):
             observe(self, 'on_open_position', order)
 
         def on_close_position(self, order):
             observe(self, 'on_close_position', order)
+
+        def on_increased_position(self, order):
+            observe(self, 'on_increased_position', order)
+
+        def on_reduced_position(self, order):
+            observe(self, 'on_reduced_position', order)
 
         def terminate(self):
             observe(self, 'terminate', None)
@@ -140,26 +149,33 @@ def run_case(case):
         stride[(s, tf)] = max(1, -(-2 * nsteps // budget)) if budget else 1
     opp = {}
 
-    def read_all(at, force_full=False):
+    def read_all(at, force_full=False, strategy=None, own_only=False):
         for (s, tf) in readable:
+            if own_only and not (strategy is not None and s == strategy.symbol and tf == strategy.timeframe):
+                continue
             T = TFMIN[tf]
             opp[(s, tf)] = opp.get((s, tf), 0) + 1
             if at != 'end' and opp[(s, tf)] % stride[(s, tf)] != 0 and opp[(s, tf)] > 2:
                 continue
             try:
-                read_one(at, force_full, s, tf, T)
+                read_one(at, force_full, s, tf, T, strategy)
             except EncodeError:          # a partial candle at a non-integer fill price: this read cannot be encoded exactly
                 st['skipped'] += 1
 
-    def read_one(at, force_full, s, tf, T):
+    def read_one(at, force_full, s, tf, T, strategy):
+        # everything is read the way a strategy reads it: its own route through the properties Strategy.candles /
+        # current_candle / open / close / high / low / price, every other (symbol, timeframe) through self.get_candles
+        own = strategy is not None and s == strategy.symbol and tf == strategy.timeframe
         if True:
             e = dict(k='read', s=syms.index(s) + 1, T=T, at=at, ok=True, exc='none', n=0, rows=[], n1=0, m1tail=[],
-                     cur=[], curok=True, curexc='none', full=[], isfull=False, part=[])
+                     cur=[], curok=True, curexc='none', full=[], isfull=False, part=[],
+                     via=('Strategy.candles' if own else 'get_candles'), ohlcp=[])
             m1 = store.candles.get_candles(ex, s, '1m')
             e['n1'] = int(len(m1))
             e['m1tail'] = tail1(m1)
             try:
-                a = store.candles.get_candles(ex, s, tf)
+                a = strategy.candles if own else (strategy.get_candles(ex, s, tf) if strategy is not None
+                                                  else store.candles.get_candles(ex, s, tf))
                 e['n'] = int(len(a))
                 e['rows'] = enc_rows(a[-2:], base)
                 if (force_full or st['steps'] in full_at) and T > 1:
@@ -171,8 +187,12 @@ def run_case(case):
                 e['ok'] = False
                 e['exc'] = type(ex_).__name__
             try:
-                c = store.candles.get_current_candle(ex, s, tf)
+                c = strategy.current_candle if own else store.candles.get_current_candle(ex, s, tf)
                 e['cur'] = [enc_row(c, base)] if len(c) else []
+                if own and len(c):
+                    u = PRICE_UNIT[0]
+                    e['ohlcp'] = [exact_int(float(x), u, 'price property') for x in
+                                  (strategy.open, strategy.close, strategy.high, strategy.low, strategy.price)]
                 if not len(c) and e['n1'] > 0:
                     e['curok'] = False
                     e['curexc'] = 'empty'
@@ -205,13 +225,17 @@ def run_case(case):
     def _observe(strategy, name, order):
         if name in HOOKS:
             st['hookreads'] += 1
-            read_all('hook')
+            read_all('hook', strategy=strategy)
         elif name == 'before':
             st['steps'] += 1
             if st['steps'] % every == 0 or st['steps'] <= 3 or st['steps'] in full_at:
-                read_all('step')
+                read_all('step', strategy=strategy)
+            else:
+                read_all('step', strategy=strategy, own_only=True)      # the route's own properties at EVERY execution
+        elif name == 'after':
+            read_all('step', strategy=strategy, own_only=True)
         elif name == 'terminate':
-            read_all('end', force_full=True)
+            read_all('end', force_full=True, strategy=strategy)
             st['fin'] = {s: enc_rows(store.candles.get_candles(ex, s, '1m'), base) for s in syms}
 
     orig = bm._update_all_routes_a_partial_candle
